@@ -83,10 +83,11 @@ class ScriptedAC(AbstractActorCriticPolicy):
     script: jax.Array  # [L, *action_shape]
     V: jax.Array  # [S]
     LP0: jax.Array  # [S]
+    VS: jax.Array  # scalar: the value also depends on the policy's own state, V(obs, c) = V[obs] + VS * c
     act_kind: str = eqx.field(static=True)
     obs_kind: str = eqx.field(static=True)
 
-    def __init__(self, env, script, V=None, LP0=None):
+    def __init__(self, env, script, V=None, LP0=None, VS=0.0):
         self.action_space = env.action_space
         self.observation_space = env.observation_space
         base = env.unwrapped
@@ -96,6 +97,10 @@ class ScriptedAC(AbstractActorCriticPolicy):
         self.script = jnp.asarray(script, dtype=dtype)
         self.V = jnp.asarray(default_V(S) if V is None else V, dtype=float)
         self.LP0 = jnp.asarray(default_LP0(S) if LP0 is None else LP0, dtype=float)
+        self.VS = jnp.asarray(VS, dtype=float)
+
+    def _value(self, state, i):
+        return self.V[i] + self.VS * state.c.astype(float)
 
     def log_prob(self, obs, action, mask):
         i = _obs_index(obs, self.obs_kind)
@@ -114,16 +119,16 @@ class ScriptedAC(AbstractActorCriticPolicy):
     def action_and_value(self, state, observation, *, key, action_mask=None):
         a = self._act(state)
         i = _obs_index(observation, self.obs_kind)
-        return CounterState(state.c + 1), a, self.V[i], self.log_prob(observation, a, action_mask)
+        return CounterState(state.c + 1), a, self._value(state, i), self.log_prob(observation, a, action_mask)
 
     def evaluate_action(self, state, observation, action, *, action_mask=None):
         i = _obs_index(observation, self.obs_kind)
         ent = 0.125 * (i + 1).astype(float)
-        return CounterState(state.c + 1), self.V[i], self.log_prob(observation, action, action_mask), ent
+        return CounterState(state.c + 1), self._value(state, i), self.log_prob(observation, action, action_mask), ent
 
     def value(self, state, observation):
         i = _obs_index(observation, self.obs_kind)
-        return state, self.V[i]
+        return state, self._value(state, i)
 
 
 def default_V(S: int) -> np.ndarray:
